@@ -366,8 +366,12 @@ func (m *Machine) buildQueryPC(s *SMT, o *Obligation, pc []Term, canon bool) str
 }
 
 func runSolver(sv Solver, file string, timeoutS int) (status, out string, secs float64) {
+	return runSolverCtx(context.Background(), sv, file, timeoutS)
+}
+
+func runSolverCtx(parent context.Context, sv Solver, file string, timeoutS int) (status, out string, secs float64) {
 	argv := sv.Argv(file, timeoutS)
-	ctx, cancel := context.WithTimeout(context.Background(), time.Duration(timeoutS+5)*time.Second)
+	ctx, cancel := context.WithTimeout(parent, time.Duration(timeoutS+5)*time.Second)
 	defer cancel()
 	cmd := exec.CommandContext(ctx, argv[0], argv[1:]...)
 	var buf bytes.Buffer
@@ -462,44 +466,63 @@ func (s *SMT) solve(query string, name string) *SolveResult {
 			res.Single = true
 		}
 	} else {
-		// quick: z3 5.1 first, then the other two raced
-		st, out, secs := runSolver(solvers[0], file, 8)
-		res.Seconds += secs
-		if st == "error" {
-			// a rejected query is retried on the other back ends before it is reported
-			st2, out2, secs2 := runSolver(solvers[1], file, s.timeoutQ)
-			res.Seconds += secs2
-			if st2 == "sat" || st2 == "unsat" {
-				st, out = st2, out2
-				res.Backend = solvers[1].Name
-			}
+		// quick: z3 5.1 starts alone; if it has not answered after 2 s (or cannot decide) the other two back ends
+		// join the race.  The first definite answer wins and the others are stopped.
+		type ans struct {
+			name, status, out string
 		}
-		if st != "unknown" {
-			if res.Backend == "" {
-				res.Backend = solvers[0].Name
-			}
-			res.Status, res.Raw = st, out
-		} else {
-			type ans struct {
-				name, status, out string
-				secs              float64
-			}
-			ch := make(chan ans, 2)
-			for _, sv := range solvers[1:] {
-				go func(sv Solver) {
-					st, out, secs := runSolver(sv, file, s.timeoutQ)
-					ch <- ans{sv.Name, st, out, secs}
-				}(sv)
-			}
-			for i := 0; i < 2; i++ {
-				a := <-ch
-				res.Seconds += a.secs
-				if a.status != "unknown" && res.Status == "unknown" {
+		ctx, cancel := context.WithCancel(context.Background())
+		ch := make(chan ans, len(solvers))
+		launch := func(sv Solver) {
+			go func() {
+				st, out, _ := runSolverCtx(ctx, sv, file, s.timeoutQ)
+				ch <- ans{sv.Name, st, out}
+			}()
+		}
+		t0 := time.Now()
+		launch(solvers[0])
+		pending, started := 1, 1
+		timer := time.NewTimer(2 * time.Second)
+		lastOut := ""
+	race:
+		for pending > 0 {
+			select {
+			case a := <-ch:
+				pending--
+				if a.status == "sat" || a.status == "unsat" {
 					res.Status, res.Backend, res.Raw = a.status, a.name, a.out
+					break race
+				}
+				if lastOut == "" || a.status == "error" {
+					lastOut = a.out
+				}
+				if a.status == "error" && res.Status == "unknown" && started == len(solvers) && pending == 0 {
+					// every back end rejected or gave up; report the rejection if all of them rejected
+				}
+				if started == 1 {
+					for _, sv := range solvers[1:] {
+						launch(sv)
+					}
+					pending += len(solvers) - 1
+					started = len(solvers)
+				}
+			case <-timer.C:
+				if started == 1 {
+					for _, sv := range solvers[1:] {
+						launch(sv)
+					}
+					pending += len(solvers) - 1
+					started = len(solvers)
 				}
 			}
-			if res.Status == "unknown" {
-				res.Raw = out
+		}
+		timer.Stop()
+		cancel()
+		res.Seconds = time.Since(t0).Seconds()
+		if res.Status == "unknown" {
+			res.Raw = lastOut
+			if strings.HasPrefix(strings.TrimSpace(lastOut), "(error") {
+				res.Status = "error"
 			}
 		}
 	}
